@@ -18,7 +18,7 @@ ALLOWED_EXTERN = {"memcmp", "memmove", "memset", "strlen", "snprintf", "printf",
 
 
 def _lib_source(with_print):
-    d = os.path.join(core.WORK, "E4")
+    d = os.path.join(core.WORK, "E4.%d" % os.getpid())
     os.makedirs(d, exist_ok=True)
     p = os.path.join(d, "lib.c")
     with open(p, "w") as f:
